@@ -289,7 +289,11 @@ def setup(ctx):
 
 CALLS = [('pair_correlation', {}), ('structure_factor', {}), ('structure_factor', {'normalize': False}), ('pmf', {}), ('second_virial', {}),
          ('second_virial', {'extrapolate': False}), ('chi', {}), ('chi', {'extrapolate': False}), ('spinodal_condition', {}),
-         ('solvation_potential', {}), ('solvation_potential', {'closure': 'PY'})]
+         ('solvation_potential', {}), ('solvation_potential', {'closure': 'PY'}),
+         # a flag is "set" whatever truthy object carries it: a numpy comparison result, an element of a boolean array, 0/1
+         ('structure_factor', {'normalize': np.bool_(True)}), ('structure_factor', {'normalize': 1}), ('structure_factor', {'normalize': np.bool_(False)}), ('structure_factor', {'normalize': 0}),
+         ('second_virial', {'extrapolate': np.bool_(False)}), ('second_virial', {'extrapolate': 1}), ('chi', {'extrapolate': np.bool_(False)}), ('chi', {'extrapolate': 1}),
+         ('spinodal_condition', {'extrapolate': np.bool_(False)}), ('spinodal_condition', {'extrapolate': 1}), ('spinodal_condition', {'extrapolate': False})]
 MULTI = ('chi', 'spinodal_condition', 'solvation_potential')
 
 
@@ -473,7 +477,7 @@ def run_case(ctx, case):
         waa, wbb, wab = vals['aa'][0], vals['bb'][0], vals['ab'][0]
         if not (abs(waa * Rv - wbb / Rv) <= 1e-9 * abs(wbb / Rv) and abs(wab + 2 * waa * Rv) <= 1e-9 * abs(wab)):
             ctx.violation('calc:chi-weight-ratio', 'chi weights of (C_aa, C_bb, C_ab) are in ratio %.6g : %.6g : %.6g, expected 1/R : R : -2 with R=%.6g' % (waa / waa, wbb / waa, wab / waa, Rv))
-    if (n >= 2 and done == len(CALLS)) or (n == 1 and done == 6):
+    if (n >= 2 and done == len(CALLS)) or (n == 1 and done == len([c for c in CALLS if c[0] not in MULTI])):
         ctx.nontrivial(case)
     ctx.count('object', 'hand/rank%d/H=%s/C=%s/W=%s' % (n, case['spaceH'], case['spaceC'], case.get('spaceW', 'Fourier')))
     ctx.sample({'rank': n, 'L': L, 'dr': sp['dr'], 'kT': sp['kT'], 'rho': sp['rho'], 'd': sp['d'], 'spaces': [case['spaceH'], case['spaceC']],
